@@ -76,6 +76,11 @@ def prevout(inp):
     return out
 
 
+def _nonminimal_push(op, data):
+    n = {0x4c: 1, 0x4d: 2, 0x4e: 4}[op]
+    return bytes([op]) + len(data).to_bytes(n, 'little') + data
+
+
 def output_script(o):
     if o['kind'] == 'raw':
         return bytes.fromhex(o['payload'])
@@ -237,8 +242,15 @@ def outputs(draw, network):
         payload = draw(st.one_of(
             st.integers(1, 3).map(lambda m: raddr.script_multisig(m, [pub_bytes(d, True) for d in (1, 2, 3)])),
             st.lists(st.sampled_from([0x51, 0x52, 0x75, 0x76, 0x87, 0x93, 0xa9, 0xac]), min_size=2, max_size=6).map(
-                bytes)))
-    value = 0 if kind == 'nulldata' else draw(st.one_of(st.sampled_from([0, 1, 546, 0xffffffff, 0x100000000]),
+                bytes),
+            # pushes that are NOT in their minimal encoding (consensus-valid, common in OP_RETURN outputs): what is
+            # signed must be these bytes, not a re-encoding of the parsed script
+            st.builds(lambda op, d, lead: lead + _nonminimal_push(op, d),
+                      st.sampled_from([0x4c, 0x4d, 0x4e]), st.binary(min_size=0, max_size=40),
+                      st.sampled_from([b'\x6a', b'\x6a', b'', b'\x51'])),
+            st.sampled_from([b'\x01\x05', b'\x01\x81\x87', b'\x01\x00', b'\x6a\x01\x10', b'\x4c\x01\x07\x75\x51'])))
+    # the library refuses a non-zero value on scripts that start with OP_RETURN
+    value = 0 if (kind == 'nulldata' or payload[:1] == b'\x6a') else draw(st.one_of(st.sampled_from([0, 1, 546, 0xffffffff, 0x100000000]),
                                                          st.integers(0, 2100000000000000)))
     return {'kind': kind, 'payload': payload.hex(), 'value': value,
             'by': draw(st.sampled_from(['address', 'script']))}
